@@ -1733,13 +1733,13 @@ def _stripped_tags(ctx, repo):
         raise AnalysisError('C16.u: no branch serialising an untagged operation found')
 
 
-def _sweep_subclass_shadowing(ctx, repo):
+def _sweep_subclass_shadowing(ctx, repo, rid='C16.v', prefixes=('cirq-google/cirq_google/api/',), floor=2):
     """C16.v - a sweep class with a subclass of different meaning (Zip / ZipLongest) is never recognised by isinstance alone."""
     from ..core import ClassInfo
-    ctx.decided.append('C16.v sweep converters: wherever a concrete sweep class that has a concrete subclass with its own param_tuples (Zip <- ZipLongest) is recognised by isinstance, the '
+    ctx.decided.append(f'{rid} sweep code: wherever a concrete sweep class that has a concrete subclass with its own param_tuples (Zip <- ZipLongest) is recognised by isinstance, the '
                        'same function also tests for the subclass')
-    ctx.rule('C16.v', 'no subclass taken for its base: in cirq_google.api, every function that tests isinstance(x, C) for a sweep class C defining param_tuples, where a subclass D of C '
-             'defines its own param_tuples, also tests isinstance(..., D) - D would otherwise be written as a C and come back with other points', floor=2, style='RG')
+    ctx.rule(rid, 'no subclass taken for its base: under ' + ', '.join(prefixes) + ', every function that tests isinstance(x, C) for a sweep class C defining param_tuples, where a subclass D of C '
+             'defines its own param_tuples, also tests isinstance(..., D) - D would otherwise be treated as a C (written as one, spliced like one) and enumerate other points', floor=floor, style='RG')
     sw = repo.module('cirq-core/cirq/study/sweeps.py')
     pairs = []
     classes = [c for c in repo.classes.values() if c.mod is sw]
@@ -1750,12 +1750,14 @@ def _sweep_subclass_shadowing(ctx, repo):
             if d is not c and c in repo.mro(d)[1:] and 'param_tuples' in d.methods:
                 pairs.append((c, d))
     if not pairs:
-        raise AnalysisError('C16.v: no sweep class with an overriding subclass found')
+        raise AnalysisError(f'{rid}: no sweep class with an overriding subclass found')
     n = 0
     for m in sorted(repo.modules.values(), key=lambda x: x.rel):
-        if not m.rel.startswith('cirq-google/cirq_google/api/') or m.rel.endswith('_test.py') or '_pb2' in m.rel:
+        if not m.rel.startswith(tuple(prefixes)) or m.rel.endswith('_test.py') or '_pb2' in m.rel:
             continue
         for fn in [f for f in ast.walk(m.tree) if isinstance(f, ast.FunctionDef)]:
+            if fn.name in ('__str__', '__repr__', '_repr_pretty_'):
+                continue   # display only: no points are enumerated
             tested = {}
             for c in ast.walk(fn):
                 if isinstance(c, ast.Call) and call_name(c) == 'isinstance' and len(c.args) == 2:
@@ -1767,8 +1769,8 @@ def _sweep_subclass_shadowing(ctx, repo):
                 if base.qual in tested:
                     n += 1
                     ok = sub.qual in tested
-                    ctx.ob('C16.v', f'{m.name}.{fn.name}:{base.name}<-{sub.name}', ok, '' if ok else
+                    ctx.ob(rid, f'{m.name}.{fn.name}:{base.name}<-{sub.name}', ok, '' if ok else
                            f'`{ast.unparse(tested[base.qual])}` is also true for a {sub.name}, whose points differ from those of a {base.name} over the same factors; the function never tests '
                            f'for {sub.name}', m.rel, tested[base.qual].lineno)
     if n == 0:
-        raise AnalysisError('C16.v: no isinstance test on such a sweep class found in cirq_google.api')
+        raise AnalysisError(f'{rid}: no isinstance test on such a sweep class found under {prefixes}')
